@@ -11,6 +11,7 @@ import (
 	"strings"
 
 	dbm "github.com/33cn/chain33/common/db"
+	"github.com/33cn/chain33/executor"
 	"github.com/33cn/chain33/types"
 	"verif/harness/core"
 )
@@ -29,6 +30,8 @@ type drv struct {
 	dir    string
 	db     dbm.DB
 	m      *dbm.MVCCHelper
+	it     *dbm.MVCCIter // opt iter=1: the iterating variant (maintains a "last value" index)
+	sdb    bool          // opt statedb=1: reads below the top go through executor.StateDB
 	keys   map[int][]byte // model key -> bytes
 	rev    map[string]int
 	hashes [][]byte
@@ -59,8 +62,10 @@ func (d *drv) conc(b *core.Behaviour, nkeys int) {
 func maxKey(b *core.Behaviour) int {
 	n := 0
 	for _, s := range b.Steps {
-		if c, ok := s["chk"].([]any); ok && len(c) > n {
-			n = len(c)
+		if cm, ok := s["chk"].(map[string]any); ok {
+			if c, ok := cm["t"].([]any); ok && len(c) > n {
+				n = len(c)
+			}
 		}
 		for _, k := range s.Ints("keys") {
 			if k > n {
@@ -95,6 +100,12 @@ func (d *drv) Reset(env *core.Env, b *core.Behaviour) error {
 		}
 	}
 	d.m = dbm.NewMVCC(d.db)
+	d.it = nil
+	if env.Opt("iter", "0") == "1" {
+		d.it = dbm.NewMVCCIter(d.db)
+		d.m = d.it.MVCCHelper
+	}
+	d.sdb = env.Opt("statedb", "0") == "1"
 	return nil
 }
 
@@ -125,8 +136,21 @@ func (d *drv) apply(kvs []*types.KeyValue) error {
 	return nil
 }
 
+func (d *drv) getv(k, u int) ([]byte, error) {
+	if d.sdb && u > 0 && u < len(d.hashes) { // (version 0 is stored as an empty record, which the harness KV applier treats as a delete)
+		// the executor's state reader: version resolved from the state hash of version u
+		kv := executor.NewStateDB(nil, d.hashes[u], dbm.NewKVDB(d.db), &executor.StateDBOption{EnableMVCC: true, Height: int64(u)})
+		v, ok := executor.VerifEnableMVCC(kv, d.hashes[u])
+		if !ok || v != int64(u) {
+			return nil, fmt.Errorf("statedb resolved version %d for hash of version %d", v, u)
+		}
+		return kv.Get(d.keys[k])
+	}
+	return d.m.GetV(d.keys[k], int64(u))
+}
+
 func (d *drv) read(k, u int) any {
-	v, err := d.m.GetV(d.keys[k], int64(u))
+	v, err := d.getv(k, u)
 	if err != nil {
 		if err == types.ErrNotFound {
 			return []any{"none", -1}
@@ -145,6 +169,55 @@ func (d *drv) read(k, u int) any {
 	return []any{"val", ver}
 }
 
+// lastView: what the MVCCIter iterator shows per key (newest live value), decoded to record ids
+func (d *drv) lastView(exp any) any {
+	if d.it == nil {
+		return exp // not observed in this mode
+	}
+	got := map[int]any{}
+	it := d.it.Iterator(nil, nil, false)
+	for it.Rewind(); it.Valid(); it.Next() {
+		k, ok := d.rev[string(it.Key())]
+		if !ok {
+			got[-1] = []any{"unknown-key", string(it.Key())}
+			continue
+		}
+		p := strings.Split(string(it.Value()), "|")
+		if len(p) != 3 {
+			got[k] = []any{"garbage", string(it.Value())}
+			continue
+		}
+		kb, _ := hex.DecodeString(p[1])
+		ver, _ := strconv.Atoi(p[2])
+		if string(kb) != string(d.keys[k]) {
+			got[k] = []any{"other", d.rev[string(kb)], ver}
+		} else {
+			got[k] = []any{"val", ver}
+		}
+	}
+	it.Close()
+	var out []any
+	for k := 1; k <= d.nkeys; k++ {
+		if v, ok := got[k]; ok {
+			out = append(out, v)
+		} else {
+			out = append(out, []any{"none", -1})
+		}
+	}
+	if v, ok := got[-1]; ok {
+		out = append(out, v)
+	}
+	return out
+}
+
+func (d *drv) chk(s core.Step) any {
+	c, _ := s["chk"].(map[string]any)
+	if c == nil {
+		return nil
+	}
+	return map[string]any{"t": d.table(nverOf(s)), "last": d.lastView(c["last"])}
+}
+
 func (d *drv) table(nver int) any {
 	var out []any
 	for k := 1; k <= d.nkeys; k++ {
@@ -158,7 +231,8 @@ func (d *drv) table(nver int) any {
 }
 
 func nverOf(s core.Step) int {
-	if c, ok := s["chk"].([]any); ok && len(c) > 0 {
+	cm, _ := s["chk"].(map[string]any)
+	if c, ok := cm["t"].([]any); ok && len(c) > 0 {
 		if r, ok := c[0].([]any); ok {
 			return len(r)
 		}
@@ -185,34 +259,46 @@ func (d *drv) Apply(s core.Step) (any, any, error) {
 			}
 			prev = d.hashes[ver-1]
 		}
-		kvl, err := d.m.AddMVCC(kvs, hash, prev, int64(ver))
+		var kvl []*types.KeyValue
+		var err error
+		if d.it != nil {
+			kvl, err = d.it.AddMVCC(kvs, hash, prev, int64(ver))
+		} else {
+			kvl, err = d.m.AddMVCC(kvs, hash, prev, int64(ver))
+		}
 		if err != nil {
-			return "err:" + err.Error(), d.table(nverOf(s)), nil
+			return "err:" + err.Error(), d.chk(s), nil
 		}
 		if err := d.apply(kvl); err != nil {
 			return nil, nil, err
 		}
 		d.hashes = append(d.hashes, hash)
-		return "ok", d.table(nverOf(s)), nil
+		return "ok", d.chk(s), nil
 	case "DelTop":
 		ver := s.Int("ver")
 		if len(d.hashes) != ver+1 {
 			return nil, nil, fmt.Errorf("version stack %d != %d", len(d.hashes), ver+1)
 		}
-		kvl, err := d.m.DelMVCC(d.hashes[ver], int64(ver), true)
+		var kvl []*types.KeyValue
+		var err error
+		if d.it != nil {
+			kvl, err = d.it.DelMVCC(d.hashes[ver], int64(ver), true)
+		} else {
+			kvl, err = d.m.DelMVCC(d.hashes[ver], int64(ver), true)
+		}
 		if err != nil {
-			return "err:" + err.Error(), d.table(nverOf(s)), nil
+			return "err:" + err.Error(), d.chk(s), nil
 		}
 		if err := d.apply(kvl); err != nil {
 			return nil, nil, err
 		}
 		d.hashes = d.hashes[:ver]
-		return "ok", d.table(nverOf(s)), nil
+		return "ok", d.chk(s), nil
 	case "Trash":
 		if err := d.m.Trash(int64(s.Int("cut"))); err != nil {
-			return "err:" + err.Error(), d.table(nverOf(s)), nil
+			return "err:" + err.Error(), d.chk(s), nil
 		}
-		return "ok", d.table(nverOf(s)), nil
+		return "ok", d.chk(s), nil
 	case "GetV":
 		return d.read(s.Int("key"), s.Int("ver")), nil, nil
 	}
@@ -246,6 +332,14 @@ func (d *drv) NonTrivial(env *core.Env, b *core.Behaviour) bool {
 		seen[v] = true
 	}
 	return len(seen) >= 2
+}
+
+func clipj(v any) string {
+	s := core.J(v)
+	if len(s) > 80 {
+		s = s[:80]
+	}
+	return s
 }
 
 func cls(v any) string {
@@ -294,8 +388,13 @@ func (d *drv) Signature(b *core.Behaviour, idx int, field string, exp, obs any) 
 		return fmt.Sprintf("GetV|exp=%s|got=%s", cls(exp), cls(obs))
 	}
 	if field == "chk" {
-		e, _ := exp.([]any)
-		o, _ := obs.([]any)
+		em, _ := exp.(map[string]any)
+		om, _ := obs.(map[string]any)
+		if em != nil && om != nil && core.Match(em["t"], om["t"]) && !core.Match(em["last"], om["last"]) {
+			return fmt.Sprintf("%s|last-view|exp=%s|got=%s", s.Op(), clipj(em["last"]), clipj(om["last"]))
+		}
+		e, _ := em["t"].([]any)
+		o, _ := om["t"].([]any)
 		for i := range e {
 			er, _ := e[i].([]any)
 			if i >= len(o) {
